@@ -134,3 +134,52 @@ def matrix_and_bounds_to_text(ctx):
     src = ''.join(unparse(g.node).split())
     ctx.check('imin=enumerate(min)' in src and 'imax=enumerate(max)' in src and 'imin=zip(variables,min)' in src and 'imax=zip(variables,max)' in src, 'symbolic_bounds#sources',
               'imin from min, imax from max', 'imin/imax sources changed', g, g.node)
+
+
+def _expand_str(node, loops):
+    """possible string values of a (formatted) string expression: constants, or '<fmt>' % i with i over range(N)"""
+    if isinstance(node, ast.Constant) and isinstance(node.value, str):
+        return [node.value]
+    if isinstance(node, ast.BinOp) and isinstance(node.op, ast.Mod) and isinstance(node.left, ast.Constant) and isinstance(node.left.value, str) \
+            and isinstance(node.right, ast.Name) and node.right.id in loops:
+        try:
+            return [node.left.value % i for i in loops[node.right.id]]
+        except Exception:
+            return None
+    return None
+
+
+def _num(text):
+    try:
+        return float(text.strip())
+    except ValueError:
+        return None
+
+
+@rule('C12.e', min_instances=10)
+def numeric_text_rewrites_preserve_values(ctx):
+    """every textual .replace() of a numeric literal applied to equation text (the sympy 0.0 work-arounds) maps a number to the same number and is anchored at a token boundary, so it cannot rewrite the inside of a longer literal"""
+    n = 0
+    for modname in ('mystic._symbolic', 'mystic.symbolic'):
+        m = ctx.model.module(modname)
+        for q, f in sorted(m.funcs.items()):
+            loops = {}
+            for lp in walk_no_nested(f.node):
+                if isinstance(lp, ast.For) and isinstance(lp.target, ast.Name) and isinstance(lp.iter, ast.Call) and callee_text(lp.iter) == 'range' \
+                        and len(lp.iter.args) == 1 and isinstance(lp.iter.args[0], ast.Constant):
+                    loops[lp.target.id] = range(lp.iter.args[0].value)
+            for c in calls_where(f.node, lambda c: isinstance(c.func, ast.Attribute) and c.func.attr == 'replace' and len(c.args) >= 2, include_lambda=True):
+                olds, news = _expand_str(c.args[0], loops), _expand_str(c.args[1], loops)
+                if not olds or not news or len(olds) != len(news):
+                    continue
+                for o, w in zip(olds, news):
+                    if _num(o) is None or not any(ch.isdigit() for ch in o):
+                        continue
+                    n += 1
+                    ctx.touch(f)
+                    same = _num(w) is not None and _num(o) == _num(w)
+                    anchored = o[0] not in '0123456789.'
+                    ctx.check(same and anchored, '%s#replace[%r]' % (q, o), '%r -> %r: same number, anchored on the left' % (o, w),
+                              'the text rewrite %r -> %r %s' % (o, w, 'changes the number' if not same else
+                                                                 'is not anchored at a token boundary: it also rewrites the inside of longer literals (10.05 -> 1.05)'), f, c)
+    ctx.need(n >= 10, 'expected >= 10 numeric text rewrites, found %d' % n)
